@@ -387,3 +387,40 @@ Proof.
     + constructor; [exact I | constructor].
   - split; vm_compute; reflexivity.
 Qed.
+
+(* ---------------------------------------------------------------------------------------------- *)
+(* Round 7: frames made from one (empty) rows argument hold exactly the records THEY accepted      *)
+
+(* Two frames (created from the same still-empty rows collection, or from the same dictionaries) appended
+   to in any interleaving: each ends exactly as if its own entries had been appended to it alone, every
+   outcome is the outcome of the addressed frame's own history, one step never touches the frame that is
+   not addressed, and a raising append leaves both frames as they were.  The correspondence (stream `twin`)
+   runs the real DataFrames created from ONE collection object and compares both frames' rows / flags and
+   the caller's collection after every append with twin_step. *)
+Theorem C05_twin_frames_independent :
+  (forall (xs : list (bool * entry)) (f0 f1 : frame),
+     fst (twin_run (f0, f1) xs) = (fst (run f0 (twin_sel false xs)), fst (run f1 (twin_sel true xs)))) /\
+  (forall (xs : list (bool * entry)) (f0 f1 : frame),
+     twin_outs false xs (snd (twin_run (f0, f1) xs)) = snd (run f0 (twin_sel false xs)) /\
+     twin_outs true xs (snd (twin_run (f0, f1) xs)) = snd (run f1 (twin_sel true xs))) /\
+  (forall (f0 f1 : frame) (b : bool) (e : entry),
+     (if b then fst (fst (twin_step (f0, f1) (b, e))) = f0 else snd (fst (twin_step (f0, f1) (b, e))) = f1) /\
+     (forall x, snd (twin_step (f0, f1) (b, e)) = ARaise x -> fst (twin_step (f0, f1) (b, e)) = (f0, f1))).
+Proof.
+  split; [exact twin_frames_independent|]. split; [exact twin_outcomes_own|exact twin_step_local].
+Qed.
+Print Assumptions C05_twin_frames_independent.
+
+(* the reviewer's scenario: schema [c0 INTEGER not null; c1 VARCHAR], both frames from one empty list;
+   frame 0 accepts (7, "text"), frame 1 rejects a str for c0 and then accepts (0, None) *)
+Example C05_nonvacuous_twin :
+  let s := [mkcol 0%N (Some 6%N) false; mkcol 1%N (Some 11%N) true] in
+  let f := init_frame (IRows s []) in
+  let xs := [(false, mkent KDict [(0%N, pv 2%N); (1%N, pv 5%N)]);
+             (true, mkent KDict [(0%N, pv 5%N); (1%N, pv 5%N)]);
+             (true, mkent KDict [(1%N, VNone); (0%N, pv 3%N)])] in
+  init_fresh (IRows s []) = true /\
+  frows (fst (fst (twin_run (f, f) xs))) = [[pv 2%N; pv 5%N]] /\
+  frows (snd (fst (twin_run (f, f) xs))) = [[pv 3%N; VNone]] /\
+  snd (twin_run (f, f) xs) = [AOk; ARaise (AErrors [] [] [(0%N, pv 5%N, 6%N)]); AOk].
+Proof. cbv zeta. repeat split; vm_compute; reflexivity. Qed.
